@@ -50,6 +50,11 @@ class Boom(Exception):
 _tok = [0]
 
 
+def case_reset(idx):
+    # tokens are a function of the case index, so that a single case replays exactly as it ran inside its shard
+    _tok[0] = idx * 100000
+
+
 def tok():
     _tok[0] += 1
     return ('v', _tok[0])
